@@ -103,6 +103,9 @@ func build(c Case) (*openapi3.T, error) {
 		raw["servers"] = []any{M{"url": "/one"}, M{"url": "/two"}}
 	case "/api/{ver}":
 		raw["servers"] = []any{M{"url": "/api/{ver}", "variables": M{"ver": M{"default": "v2"}}}}
+	case "/api/{ver}/{area}":
+		// two server variables that do not occur in alphabetical order
+		raw["servers"] = []any{M{"url": "/api/{ver}/{area}", "variables": M{"ver": M{"default": "v2"}, "area": M{"default": "eu"}}}}
 	default:
 		raw["servers"] = []any{M{"url": c.Server}}
 	}
@@ -120,6 +123,8 @@ func basePattern(server string) *regexp.Regexp {
 		return regexp.MustCompile(`^`)
 	case "/v1":
 		return regexp.MustCompile(`^/v1`)
+	case "/api/{ver}/{area}":
+		return regexp.MustCompile(`^/api/[^/]+/[^/]+`)
 	case "/api/{ver}":
 		return regexp.MustCompile(`^/api/[^/]+`)
 	default:
@@ -244,6 +249,15 @@ func check(c Case) (o h.Outcome) {
 			o.Fail("wrong-method:"+c.Router, "route.Method=%q for a %q request", route.Method, c.Method)
 			return
 		}
+		// server variables, when returned, carry what the request has at their positions
+		if c.Server == "/api/{ver}/{area}" && strings.HasPrefix(c.Path, "/api/v2/eu") {
+			for k, wantV := range map[string]string{"ver": "v2", "area": "eu"} {
+				if v, ok := params[k]; ok && v != wantV {
+					o.Fail("server-variable-binding:"+c.Router, "server variable %q is returned as %q for request path %q under server %q (all returned parameters: %v)", k, v, c.Path, c.Server, params)
+					return
+				}
+			}
+		}
 		// the matched server: its base path (variables aside) has to be the prefix of the request path
 		// that the rest of the template follows
 		if route.Server != nil && !strings.Contains(route.Server.URL, "{") {
@@ -338,7 +352,7 @@ func check(c Case) (o h.Outcome) {
 
 var tplPool = []string{"/a", "/a/{x}", "/a/b", "/{x}", "/{x}/b", "/a/{x}/b", "/a/{x}/{y}", "/{x}/{y}", "/b/{y}", "/b", "/a/b/c", "/a/{x}/c", "/{x}/b/{y}", "/a/b/{y}", "/a/p-{x}", "/a/p-b", "/a/{x}.json", "/a/b.json", "/a/{x}.{y}", "/{x}-{y}/b"}
 var methodSets = [][]string{{"GET"}, {"POST"}, {"GET", "POST"}, {"GET", "PUT", "DELETE"}}
-var servers = []string{"none", "/v1", "/api/{ver}", "http://h.example/base", "multi:/v1,/v10", "multi:/v10,/v1", "first:/one,/two"}
+var servers = []string{"none", "/v1", "/api/{ver}", "http://h.example/base", "multi:/v1,/v10", "multi:/v10,/v1", "first:/one,/two", "/api/{ver}/{area}"}
 var values = []string{"1", "abc", "a.b", "x-y_z~", "b", "a"}
 
 func baseOf(server string) string {
@@ -353,6 +367,8 @@ func baseOf(server string) string {
 		return ""
 	case "/v1":
 		return "/v1"
+	case "/api/{ver}/{area}":
+		return "/api/v2/eu"
 	case "/api/{ver}":
 		return "/api/v2"
 	}
